@@ -120,7 +120,7 @@ def handleRand : OpHandler := fun st op args =>
       let S := d.reach ty
       let rk := d.computeFillRanks gi
       let b (x : Bool) : String := if x then "1" else "0"
-      some s!"ok closed={b (d.closed S)} bounded={b (d.allOnI S (fun i _ => decide (rkAt rk i ≤ d.insts.size)))} ranked={b (d.allOnI S (Inst.fillRanked gi rk))} capfree={b (d.allOnI S (Inst.capFree d gi))} guard={b (d.fillGuard gi rk S)} fillok={b (d.allOnI S (Inst.fillOk d gi))} productive={b (d.productive d.computeRanks)}"
+      some s!"ok closed={b (d.closed S)} bounded={b (d.allOnI S (fun i _ => decide (rkAt rk i ≤ d.insts.size)))} ranked={b (d.allOnI S (Inst.fillRanked gi rk))} satok={b (d.allOnI S (Inst.satOk d gi))} guard={b (d.fillGuard gi rk S)} fillok={b (d.allOnI S (Inst.fillOk d gi))} productive={b (d.productive d.computeRanks)}"
     | _, _ => some "bad-op"
   | _, _ => none
 
